@@ -73,8 +73,11 @@ def run_case(case):
     # column NAMES are arbitrary strings: also ones that are attribute / method names of the row dicts
     rename = {'i': 'values', 's': 'items', 'f': 'keys', 'st': 'copy', 'l': 'get'} if case.get('names') == 'methods' else {}
     if case.get('names') == 'human':        # headers as people write them: blanks, brackets, punctuation
-        rename = {'i': 'unit price (eur)', 's': 'first name', 'f': 'ratio = a/b', 'st': 'geo;point', 'l': 'tags, all'}
-    schema = pa.schema([(rename.get(c, c), COLS[c]) for c in cols])
+        rename = {'i': 'unit price (eur)', 's': 'sensor.name', 'f': 'sensor.ratio = a/b', 'st': 'geo;point', 'l': 'tags, all'}
+    if case.get('nonnull') and not case.get('nulls'):
+        schema = pa.schema([pa.field(rename.get(c, c), COLS[c], nullable=False) for c in cols])      # NOT NULL columns
+    else:
+        schema = pa.schema([(rename.get(c, c), COLS[c]) for c in cols])
     if case.get('fat') and 's' in cols and len(rows) >= 3:
         # rows of very different sizes: two strings of ~700 KB after a few small rows (one record batch of more than a megabyte)
         for k in (len(rows) // 2, len(rows) // 2 + 1):
@@ -172,7 +175,7 @@ def case_gen(draw):
     return {'rows': rows, 'dump_batch': b, 'load_batch': draw(st.one_of(st.integers(1, 8), st.integers(1, 2000))),
             'row_group': draw(st.sampled_from([None, None, 1, 3, 100])), 'compression': draw(st.sampled_from(['NONE', 'snappy', 'gzip', 'zstd'])),
             'cols': cols, 'fileobj': draw(st.booleans()), 'seed': draw(st.integers(0, 99)), 'nulls': draw(st.booleans()), 'twice': draw(st.integers(0, 3)) == 0, 'cursor': draw(st.booleans()),
-            'names': draw(st.sampled_from([None, None, 'methods', 'human'])), 'fat': draw(st.integers(0, 9)) == 0, 'live': draw(st.integers(0, 3)) == 0}
+            'names': draw(st.sampled_from([None, None, 'methods', 'human'])), 'fat': draw(st.integers(0, 9)) == 0, 'nonnull': draw(st.integers(0, 2)) == 0, 'live': draw(st.integers(0, 3)) == 0}
 
 
 def boundary(tier):
